@@ -52,7 +52,7 @@ def _case(draw, unit):
     return {'biort': b, 'qshift': q, 'J': J, 'size': [draw(dtu.size_strategy(24)), draw(dtu.size_strategy(24))],
             'N': draw(st.sampled_from([1, 2])), 'C': draw(st.sampled_from([1, 2, 3])),
             'o_dim': o, 'ri_dim': ri, 'skip': mask(), 'scales': mask(),
-            'mode': draw(st.sampled_from(['symmetric', 'symmetric', 'zero'])),
+            'mode': draw(st.sampled_from(['symmetric', 'symmetric', 'symmetric', 'zero', 'zero', 'reflect', 'replicate', 'periodic', 'constant'])),
             'mask_container': draw(st.sampled_from(dtu.MASK_CONTAINERS)),
             'dtype': draw(st.sampled_from(['f64', 'f64', 'f32'])),
             'rx': draw(core.recipe_strategy())}
@@ -190,6 +190,23 @@ def run_case(case):
         if not same(canon(yh[j], o, ri), yh0[j]):
             r.fail('layout_values:o%d_ri%d' % (o % 6, ri % 6),
                    'level %d: moving the axes back does not give the default-layout subbands' % (j + 1))
+    # (f) the module is used again, on other data and then on x once more: the result for x is the same as the
+    # first time, and what the first call returned (the list and its tensors) is left alone
+    first_ids = [id(t) for t in yh]
+    first_vals = [t.clone() for t in yh]
+    ok, o2 = lib(fwd, x.flip(-1) * 0.5 + 1.0)
+    ok3, o3 = lib(fwd, x)
+    if not ok or not ok3:
+        r.fail((o2 if not ok else o3).bucket, 'a later call of the same module raised: %s' % (o2 if not ok else o3))
+    else:
+        yl3, yh3 = o3
+        if len(yh3) != len(first_vals) or any(tuple(a.shape) != tuple(b.shape) or not same(a, b) for a, b in zip(yh3, first_vals) if not is_placeholder(b)) \
+                or any(is_placeholder(b) != is_placeholder(a) for a, b in zip(yh3, first_vals)):
+            r.fail('later_call_differs', 'calling the same module again on the same input gives a different pyramid')
+        if isinstance(yl, torch.Tensor) and isinstance(yl3, torch.Tensor) and not same(yl3, yl):
+            r.fail('later_call_differs', 'calling the same module again on the same input gives a different lowpass')
+        if [id(t) for t in yh] != first_ids or any(tuple(a.shape) != tuple(b.shape) or not torch.equal(a, b) for a, b in zip(yh, first_vals)):
+            r.fail('returned_container_overwritten', 'the highpass list returned by the first call was modified by later calls')
     # (e) prefix consistency
     for j in range(1, J):
         with dwtu.default_dtype(tdt):
